@@ -22,10 +22,11 @@ def allPairs {α : Type} : List α → List (α × α)
   | [] => []
   | a :: l => l.map (fun b => (a, b)) ++ allPairs l
 
-/-- `eid_from_vertex(earr, vbel)`: first position whose id set shares at least two ids with `vbel`. -/
+/-- `eid_from_vertex(earr, vbel)`: first position `j` with `list(earr[j]) == list(vbel)` — the interface itself,
+    same vertices in the same direction; `none` = `raise BigEdgesBadlyCreated`.
+    (Before the repair of finding D29: first position sharing at least two ids with `vbel`.) -/
 def eidFromVertex (earr : List (List Id)) (vbel : List Id) : Option Nat :=
-  (List.range earr.length).find? fun j =>
-    decide (((earr.getD j []).eraseDups.filter fun v => vbel.contains v).length ≥ 2)
+  (List.range earr.length).find? fun j => earr.getD j [] == vbel
 
 structure FMInput where
   mesh : Mesh
